@@ -81,6 +81,11 @@ def _end(p, rec, method, raised, lines):
             "lines": [[runtrace._cell(c) for c in l] for l in (lines or [])] if not raised else [],
             "headers": [txt(h) for h in (p.headers or [])],
         }
+        if runner.HARNESS_FAILURES:
+            # the observation code itself failed during this run: say so to the check (machinery failure), record nothing
+            with open(OUT + ".harness_failed", "w") as f:
+                f.write(runner.HARNESS_FAILURES[0][-1500:])
+            return _skip("harness failure")
         _state["n"] += 1
         out = {"tid": _state["n"], "test": os.environ.get("PYTEST_CURRENT_TEST", "").split(" ")[0], "method": method,
                "csvpath": f"{p.scan} {p.match}"[:2000], "prog": runtrace.strip_private(prog), "file": [[txt(c) for c in r] for r in records],
